@@ -28,7 +28,7 @@ REAL_VS_STUB = {'real': ['kyupy.circuit.Circuit: copy, __getstate__/__setstate__
 ASSUMPTIONS = ['an instance input pin is left unconnected only where "reads 0" and "not connected" give the cell the same function (otherwise the function before resolving is ambiguous)',
                'the function of a sequential library instance is defined through its implementation: state = the state element inside, result = value at that element\'s data pin',
                'one library per case; resolve_tlib_cells is called with the library the instances were taken from']
-EXPECTED_PROBES = ['nested_multi_output_impl', 'resolve_step', 'substitute_step', 'restore_step', 'elim_step', 'unconnected_input_pin', 'unconnected_output_pin', 'sequential_cell', 'multi_output_cell', 'cell_without_output', 'ignored_pin_cell']
+EXPECTED_PROBES = ['implementation_reused_after_edit', 'nested_multi_output_impl', 'resolve_step', 'substitute_step', 'restore_step', 'elim_step', 'unconnected_input_pin', 'unconnected_output_pin', 'sequential_cell', 'multi_output_cell', 'cell_without_output', 'ignored_pin_cell']
 
 LIBS = ['GSC180', 'NANGATE', 'NANGATE_ZN', 'SAED32', 'SAED90']
 HIDDEN_LATCH = ('DLH_X', 'DLL_X', 'TLAT_X1', 'TLATX1', 'TLATSRX1')
@@ -250,6 +250,7 @@ def execute(case):
     c = build(case, res)
     uid = 0
     prev_kind = None
+    last_impl = None
     interesting = bool(res.probes.get('unconnected_input_pin') or res.probes.get('unconnected_output_pin') or res.probes.get('sequential_cell') or res.probes.get('multi_output_cell'))
     for k, st in enumerate(case['steps']):
         kind = st[0]
@@ -274,6 +275,20 @@ def execute(case):
             if st[2] % 4 == 0 and n_in >= 2:
                 impl, text = impl_nested(ha, n_in, n_out, f'{k}u{uid}')
                 res.probe('nested_multi_output_impl')
+            elif st[2] % 4 == 1 and last_impl is not None:
+                # the SAME implementation object as in an earlier substitute step, edited in between (two ports swapped)
+                li_in, li_out = cell_pins(last_impl)
+                if li_in >= len(target.ins) and li_out >= max(1, len(target.outs)):
+                    impl = last_impl
+                    ports_in = [j for j, x in enumerate(impl.io_nodes) if len(x.ins) == 0]
+                    ports_out = [j for j, x in enumerate(impl.io_nodes) if len(x.ins) > 0]
+                    grp = ports_in if (len(ports_in) >= 2 and st[1] % 2 == 0) or len(ports_out) < 2 else ports_out
+                    if len(grp) >= 2:
+                        a_, b_ = grp[0], grp[-1]
+                        impl.io_nodes[a_], impl.io_nodes[b_] = impl.io_nodes[b_], impl.io_nodes[a_]
+                    text = 'the implementation object of an earlier step, two ports swapped'
+                    res.probe('implementation_reused_after_edit')
+            last_impl = impl
             overrides = {target.name: impl}
             did = f'substitute({target.name}:{target.kind}, {text[:70]})'
         names0 = [n.name for n in c.s_nodes]
